@@ -11,6 +11,8 @@ from harness.refmodel import freeze
 S = load()
 
 PROPERTY = "C16"
+LEVEL_TEXT = 'Exploration: fingerprint() compared with a fresh rebuild at every read and at program end (histories), under random interleavings of table reads / column reads / four write paths, plus metamorphic sensitivity for single-position changes and swaps.'
+LEVEL_NOTE = "'Notices every change' is decided only for changes a 61-bit polynomial digest must see (rule 4.7)."
 DESIGN_REF = "DESIGN.md §5 C16"
 ENGINE = "world"
 TECHNIQUE = "model-based property testing over histories that interleave fingerprint() reads with every write path (oracle: fingerprint of a freshly rebuilt object with the same contents), plus a metamorphic sensitivity part (single-position change / swap / permutation must change the fingerprint)"
